@@ -697,6 +697,55 @@ def lockstep_to_zip(fn: ast.FunctionDef) -> tuple[ast.FunctionDef, int]:
     return new, count
 
 
+def unroll_literal_loops(fn: ast.FunctionDef) -> tuple[ast.FunctionDef, int]:
+    """`for a, b in ((x1, y1), (x2, y2)): BODY`  ->  BODY[a:=x1, b:=y1]; BODY[a:=x2, b:=y2]   (at most 4 literal
+    elements of pure expressions, BODY without break / continue / rebinding of the targets).  A `return` in BODY keeps
+    its meaning."""
+    if not any(isinstance(n, ast.For) and isinstance(n.iter, (ast.Tuple, ast.List)) for n in ast.walk(fn)):
+        return fn, 0
+    count = 0
+
+    def pure(e: ast.expr) -> bool:
+        return _pure_chain(e) or isinstance(e, ast.Constant) or (isinstance(e, ast.Tuple) and all(pure(x) for x in e.elts))
+
+    class T(ast.NodeTransformer):
+        def visit_For(self, node: ast.For):
+            nonlocal count
+            self.generic_visit(node)
+            it = node.iter
+            if not isinstance(it, (ast.Tuple, ast.List)) or not (1 <= len(it.elts) <= 4) or node.orelse or not all(pure(e) for e in it.elts):
+                return node
+            tg = node.target
+            names = [tg.id] if isinstance(tg, ast.Name) else [e.id for e in tg.elts if isinstance(e, ast.Name)] if isinstance(tg, ast.Tuple) else []
+            if not names or (isinstance(tg, ast.Tuple) and len(names) != len(tg.elts)):
+                return node
+            body_nodes = [x for st in node.body for x in ast.walk(st)]
+            if any(isinstance(x, (ast.Break, ast.Continue)) for x in body_nodes):
+                return node
+            if any(isinstance(x, ast.Name) and isinstance(x.ctx, (ast.Store, ast.Del)) and x.id in names for x in body_nodes):
+                return node
+            out: list[ast.stmt] = []
+            for el in it.elts:
+                if isinstance(tg, ast.Name):
+                    sub = {tg.id: el}
+                else:
+                    if not isinstance(el, (ast.Tuple, ast.List)) or len(el.elts) != len(names):
+                        return node
+                    sub = dict(zip(names, el.elts))
+                for st in node.body:
+                    out.append(_Renamer(sub, {}).visit(copy.deepcopy(st)))
+            count += 1
+            return out
+
+    new = copy.deepcopy(fn) if not getattr(fn, "_xsa_copy", False) else fn
+    new = T().visit(new)
+    if count == 0:
+        return fn, 0
+    ast.fix_missing_locations(new)
+    new._xsa_copy = True  # type: ignore[attr-defined]
+    return new, count
+
+
 def inline(fi) -> ast.AST:
     """Normalised copy of fi.raw_node: private helpers inlined, field aliases propagated (the node itself when
     nothing applies)."""
@@ -706,6 +755,7 @@ def inline(fi) -> ast.AST:
         new, _ = propagate_aliases(new)
     new, _ = index_loops_to_zip(new)
     new, _ = lockstep_to_zip(new)
+    new, _ = unroll_literal_loops(new)
     return new
 
 
